@@ -736,7 +736,7 @@ def local_sig(A, l, depth=0):
     return k
 
 
-def relevant_guards(A, s):
+def relevant_guards(A, s, precise=False):
     """guard signatures in force at the site that speak about the site's own operands: comparisons of an operand (index, length, arithmetic operand),
     length facts about the indexed collection, variant facts about an unwrapped receiver. An audit is written knowing these tests; it is void without them."""
     ops = [o for o in (s.ops or []) if isinstance(o, list)]
@@ -762,10 +762,58 @@ def relevant_guards(A, s):
     out = set()
     for f in A.facts_at(s.block, stale_ok=True):
         if f[0] == "cmp" and (mentions(f[2]) or mentions(f[3])) and not (f[2][0] == "c" and f[3][0] == "c"):
-            out.add(guard_sig(f))
+            out.add(guard_sig_precise(A, f) if precise else guard_sig(f))
         elif f[0] in ("len_eq", "len_gt", "len_notin", "variant") and f[1] in roots:
-            out.add(guard_sig(f))
+            out.add(guard_sig_precise(A, f) if precise else guard_sig(f))
     return sorted(out)
+
+
+def sym_sig(A, x):
+    """canonical rendering of a symbolic value of the fact language (which variable is compared, not only its shape)"""
+    if not isinstance(x, tuple) or not x:
+        return "?"
+    if x[0] == "c":
+        return str(x[1])
+    if x[0] in ("l", "count"):
+        return local_sig(A, x[1]) if isinstance(x[1], int) else "var"
+    if x[0] == "p":
+        try:
+            pl = json.loads(x[1])
+            if isinstance(pl, list):
+                return place_sig(A, pl)
+        except ValueError:
+            pass
+        return "place"
+    if x[0] == "len":
+        return "len(%s)" % root_sig(A, x[1])
+    if x[0] == "add":
+        return "%s%+d" % (sym_sig(A, x[1]), x[2])
+    return x[0]
+
+
+def root_sig(A, r):
+    if isinstance(r, tuple):
+        if r and r[0] == "k":
+            return "const"
+        return "%s.%s" % (root_sig(A, r[0]), ".".join(map(str, r[1]))) if len(r) == 2 and isinstance(r[1], tuple) else "root"
+    return local_sig(A, r) if isinstance(r, int) else "root"
+
+
+def guard_sig_precise(A, f):
+    if f[0] == "cmp":
+        a, b, op = sym_sig(A, f[2]), sym_sig(A, f[3]), f[1]
+        if op in (">", ">="):          # one orientation
+            a, b, op = b, a, FLIP[op]
+        if op in ("==", "!=") and b < a:
+            a, b = b, a
+        return "cmp:%s:%s:%s" % (op, a, b)
+    if f[0] in ("len_eq", "len_gt"):
+        return "%s:%s:%s" % (f[0], root_sig(A, f[1]), f[2])
+    if f[0] == "len_notin":
+        return "len_notin:%s:%s" % (root_sig(A, f[1]), ",".join(map(str, f[2])))
+    if f[0] == "variant":
+        return "variant:%s:%s" % (root_sig(A, f[1]), f[2])
+    return guard_sig(f)
 
 
 def site_opsig(A, s):
